@@ -102,7 +102,11 @@ func funcsCase(group string, r *rng.R) (line, impl string) {
 	switch group {
 	case "02":
 		a, v := funcsBig(r), funcsBig(r)
-		switch r.Intn(12) {
+		switch r.Intn(13) {
+		case 12:
+			k, d := funcsI64(r), int64(r.Intn(25))
+			c2 := balance.Currency{Name: "X", Chain: 0, Decimal: d}
+			return fmt.Sprintf("newCoinFromInt %d %d", k, d), c2.NewCoinFromInt(k).Amount.BigInt().String()
 		case 10:
 			if r.Intn(3) == 0 {
 				v = new(big.Int).Set(a)
